@@ -522,6 +522,17 @@ def check(ctx):
     # become negative, flooring the factor at 0 would add drift
     for via_ in ("generator", "instrument"):
         moment_suite(ctx, torch, S, "local_volatility", {"dt": 0.04, "n": 2, "init": 2.0, "a": 3.0, "b": 0.0, "c": 0.0, "via": via_}, max(NP, 100000), "corpus")
+    # corpus of regimes that the random sweeps reach only now and then, run on every tier: variance / rate LEVELS of the order of 1e-4 in
+    # float32 (the divisions of the QE scheme must not be clamped at the float32 epsilon there) and a zero starting rate in every
+    # spelling (a falsy initial state is still the initial state)
+    for via_ in ("generator", "instrument"):
+        for lvl, sg in ((1e-4, 0.01), (2.5e-5, 0.003)):
+            moment_suite(ctx, torch, S, "cir", {"dt": 1 / 250, "n": 11, "init": lvl, "kappa": 1.0, "theta": lvl, "sigma": sg, "via": via_, "dtype": "float32"}, NP, "corpus")
+            moment_suite(ctx, torch, S, "heston", {"dt": 1 / 250, "n": 11, "s0": 1.0, "v0": lvl, "kappa": 1.0, "theta": lvl, "sigma": sg, "rho": -0.7, "via": via_,
+                                                   "dtype": "float32"}, NP, "corpus")
+        for form in ("tuple", "scalar", "tensor0"):
+            moment_suite(ctx, torch, S, "vasicek", {"dt": 1 / 250, "n": 11, "init": 0.0, "kappa": 3.0, "theta": 0.1, "sigma": 0.02, "init_form": form, "via": via_,
+                                                    "dtype": "float64"}, NP, "corpus")
     # ---------------- failing-input search directed at the generators whose correspondence broke:
     # the same moment statements evaluated at (tamed variants of) the disagreeing parameter sets
     seen = set()
